@@ -137,7 +137,60 @@ def ob_zero_stays_zero(run, oid):
     return o
 
 
+def ob_derived_weights_tested(run, oid):
+    """'can be constructed for every validator set with positive stakes': StakeWeightedSampler::new / PartitionSampler::new need a non-empty list
+    with a positive weight (reviewed `expect`, O17.3). A constructor that hands on the list it was GIVEN inherits that from the property's premise;
+    one that REWRITES the stakes first (residual stakes, derived work) has to test the rewritten weights for all-zero and fall back - D27."""
+    prog = run.program("lib")
+    o = run.ob(oid, "a constructor that rewrites the stakes before building a weighted sampler tests the rewritten weights for zero (and falls back to the given list)",
+               "derived weights can all be zero although every stake is positive (exact multiples of total/k; expected excess work of 1 or 2 validators): "
+               "WeightedIndex::new fails and the constructor panics", floor=6)
+    targets = (SS + "StakeWeightedSampler::new", SS + "PartitionSampler::new")
+    n = 0
+    for d, b in sorted(prog.bodies.items()):
+        if b.generated or "::tests::" in d or "::seeded_demo::" in d or "_demo::" in d:
+            continue
+        cs = [c for c in b.calls() if c.name in targets]
+        if not cs:
+            continue
+        fam = prog.family(d.split("::{closure")[0])
+        rewrites = any(name == "stake" and ow.endswith("ValidatorInfo") for fb in fam for (_bb, ow, name, _rv, _sp, _dst) in fb.field_writes()) or any(
+            c2.name.rsplit("::", 1)[-1] in ("sub_assign", "add_assign", "mul_assign", "div_assign") and K.mentions_field(fb.operand_term(c2.args[0]), "stake") for fb in fam for c2 in fb.calls())
+        for c, key in K.ordinal_keys(cs, lambda c: "%s|%s" % (K.fshort(d), c.name.rsplit("::", 2)[-2])):
+            n += 1
+            if not rewrites:
+                o.ok(key + "|given-list", "the validator list is handed on as given (positive stakes are the property's premise)", c.span, nontrivial=False)
+                continue
+            atoms = G.guard_atoms(b, c.bb, prog)
+
+            def zero_test(a):
+                if a[0] == "bool" and any(isinstance(x, tuple) and (K.mentions_call(x, "::all") or K.mentions_call(x, "::any")) for x in a[1]):
+                    return True
+                if a[0] == "eq" and any(isinstance(x, tuple) and x and x[0] == "const" and str(x[2]) in ("0", "0.0", "0f64") for x in a[1]):
+                    return True
+                return False
+            ok_ = any(zero_test(a) for a in atoms)
+            if not ok_:
+                # `let list = if all_zero { given } else { rewritten }; Sampler::new(list)`: the test selects the argument instead of the call
+                arg = c.args[0]
+                l_ = arg.get("l") if isinstance(arg, dict) else None
+                if l_ is None and isinstance(arg, dict) and "p" in arg:
+                    l_ = arg["p"].get("l") if isinstance(arg["p"], dict) else None
+                t_ = b.operand_term(arg)
+                locs = [x[1] for x in mir.walk(t_) if isinstance(x, tuple) and x and x[0] == "local"] + ([l_] if l_ is not None else [])
+                for lc in locs:
+                    ds = b.defs().get(lc, [])
+                    if len(ds) >= 2 and all(any(zero_test(a) for a in G.guard_atoms(b, d_[1], prog)) for d_ in ds):
+                        ok_ = True
+            o.check(ok_, key + "|derived-weights|zero-test", "the call is on one side of an all-zero test of the rewritten weights", c.span,
+                    {"guards": G.atoms_show(atoms)[:4]})
+    if n == 0:
+        o.missing("calls of StakeWeightedSampler::new / PartitionSampler::new")
+    return o
+
+
 def check(run):
+    ob_derived_weights_tested(run, "O17.14")
     ob_rejection_budget(run, "O17.12")
     ob_zero_stays_zero(run, "O17.13")
     from . import detectors as _DN
